@@ -486,12 +486,16 @@ def unknown_name_check():
     """Evaluated once per check run by the runner hook below (no schedule in it)."""
     g = boot.load()
     bad = []
-    for name in ("|weibull(1, 2)|", "|normal(100, 10)|", "|gaus(100, 10)|", "|schulzzimm(100,90)|"):
+    names = ["|weibull(1, 2)|", "|normal(100, 10)|", "|gaus(100, 10)|", "|schulzzimm(100,90)|",
+             # names that merely begin or end with a documented name are unknown names too ("rejected" = any exception: the
+             # unchanged tree refuses these with the ValueError of its argument parser)
+             "|gaussian(100, 10)|", "|gauss2(100, 10)|", "|uniform_int(5, 50)|", "|poissonian(30)|", "|poisson_shifted(30)|",
+             "|log_normal_mw(100, 1.2)|", "|schulz_zimm_flory(200, 100)|", "|flory_schulz2(0.05)|", "|my_gauss(100, 10)|",
+             "|xuniform(1, 5)|", "|Gauss(100, 10)|", "|POISSON(30)|", "|lognormal(100, 1.2)|", "|schulz-zimm(200, 100)|"]
+    for name in names:
         try:
             d = g.distribution.get_distribution(name)
             bad.append((name, type(d).__name__))
-        except RuntimeError:
+        except Exception:
             pass
-        except Exception as exc:
-            bad.append((name, repr(exc)))
     return bad
